@@ -224,6 +224,8 @@ def _work(args):
     cases = list(mod.cases_of(chunk))
     recs = eval_cases(mod, cases) if cases else []
     stats = {"n": len(recs), "status": {}, "hashes": [], "nontrivial_hashes": [], "dist": {}, "fail": [], "samples": []}
+    known = [k for k in load_known() if k["kind"] == "known" and k["property"] == getattr(mod, "PROP", "") and "trigger" in k]
+    nknown = 0
     for r in recs:
         st = r["verdict"]["status"]
         stats["status"][st] = stats["status"].get(st, 0) + 1
@@ -233,8 +235,26 @@ def _work(args):
             stats["nontrivial_hashes"].append(h)
         for k in mod.features(r["case"], r["obs"]):
             stats["dist"][k] = stats["dist"].get(k, 0) + 1
-        if st in ("oracle", "corr", "error") and len(stats["fail"]) < 5:
-            stats["fail"].append(r)
+        if st in ("oracle", "corr", "error"):
+            # failures that are a listed known finding are kept apart (at most 2 per chunk) so that
+            # they can never crowd out a different violation of the same property
+            kf = None
+            if st == "oracle":
+                for k in known:
+                    try:
+                        if mod.matches_known(k["trigger"], r["case"]):
+                            kf = k["trigger"]
+                            break
+                    except Exception:
+                        pass
+            if kf is not None:
+                stats["status"]["known"] = stats["status"].get("known", 0) + 1
+                if nknown < 2:
+                    nknown += 1
+                    r["known"] = kf
+                    stats["fail"].append(r)
+            elif sum(1 for x in stats["fail"] if "known" not in x) < 5:
+                stats["fail"].append(r)
     if recs:
         stats["samples"] = [recs[0]["case"], recs[len(recs) // 2]["case"]]
     stats["chunk"] = chunk
